@@ -1518,6 +1518,22 @@ pub fn check_tables(q: &AnyQ, cx: &mut Ctx, when: &str) {
     }
 }
 
+/// signature of a small state: kind, size, heap -> slot permutation, rank pattern of the priorities
+pub fn state_sig(q: &AnyQ, s: &[P3]) -> u64 {
+    let snap = q.snapshot();
+    let mut h = crate::rng::mix(s.len() as u64, q.kind() as u64);
+    for x in &snap.heap {
+        h = crate::rng::mix(h, *x as u64);
+    }
+    let mut ps: Vec<i32> = s.iter().map(|x| x.1).collect();
+    ps.sort();
+    ps.dedup();
+    for x in s {
+        h = crate::rng::mix(h, ps.binary_search(&x.1).unwrap_or(0) as u64);
+    }
+    h
+}
+
 pub fn post_check(q: &mut AnyQ, m: &Model, st: &Step, cx: &mut Ctx) {
     let kind = q.kind();
     let ot = ord_tag(kind);
@@ -1529,19 +1545,7 @@ pub fn post_check(q: &mut AnyQ, m: &Model, st: &Step, cx: &mut Ctx) {
     let s = q.contents();
     let n = s.len();
     if cx.snapshot && n <= 10 {
-        let snap = q.snapshot();
-        let mut h = crate::rng::mix(n as u64, kind as u64);
-        for x in &snap.heap {
-            h = crate::rng::mix(h, *x as u64);
-        }
-        // rank pattern of the priorities in slot order
-        let mut ps: Vec<i32> = s.iter().map(|x| x.1).collect();
-        ps.sort();
-        ps.dedup();
-        for x in &s {
-            h = crate::rng::mix(h, ps.binary_search(&x.1).unwrap_or(0) as u64);
-        }
-        cx.sigs.push(h);
+        cx.sigs.push(state_sig(q, &s));
     }
     expect!(cx, tags, "len", q.len() == n && q.is_empty() == (n == 0), "len()={} is_empty()={} but iter() yields {} elements", q.len(), q.is_empty(), n);
     // contents against the model
